@@ -24,6 +24,18 @@ CHECKS = {
             "every observed normal-form output satisfies the stated shape predicates"),
     "C08": ("7/C08", "runtime monitoring: agenda / naive_bottom_up / treesum / expected_length observed on generated convergent grammars over 9 semirings under native, fifo and random agenda pop orders and several hash seeds, judged by an independent least-fixed-point solver (exact linear solve per SCC, Kleene+Newton otherwise)",
             "every observed total weight equals the reference least solution (exact for idempotent semirings and Q, 1e-9+1e-8 relative otherwise)"),
+    "C11": ("7/C11", "runtime monitoring: WFSA.__call__ / epsremove / total_weight observed on generated automata (eps cycles, parallel arcs, dead and unreachable states) over 6 semirings, judged by a dense reference (matrix closure; path enumeration as second opinion on acyclic machines)",
+            "every observed string weight, eps-removed automaton and total weight equals the reference path sum (exact for Q / Boolean / MaxTimes)"),
+    "C12": ("7/C12", "runtime monitoring: random rational expressions (+ . star plus reverse rename renumber, constants) built by the real library on generated operands; every sub-expression's value judged by the language-level definition computed from dense reference values of the operands",
+            "every observed (sub-)expression equals the language-level operation on all strings up to the bound"),
+    "C13": ("7/C13", "runtime monitoring: determinize / min_det / push / trim / trim_vals observed on generated automata; results judged by exact equivalence over Q (Tzeng) plus structural monitors; determinisation under a logical-step budget",
+            "every observed result is exactly equivalent to its input over Q and satisfies the stated structure"),
+    "C14": ("7/C14", "runtime monitoring: counterexample / == / hash / min observed on pairs of real-weighted automata built equivalent by exact constructions or different by a margin; judged by exact rational equivalence and Hankel rank; min under a logical-step budget on projections",
+            "every observed verdict of the equivalence test agrees with exact equivalence; min terminates within budget, is equivalent and has Hankel-rank many states"),
+    "C15": ("7/C15", "runtime monitoring: closure_scc_based / closure_reference / closure / solve_left / solve_right / blocks observed on generated weighted graphs over 5 semirings, judged by (I-A)^-1 over Q / Floyd-Warshall and reachability-matrix SCCs",
+            "every observed closure entry, least solution and SCC decomposition equals the reference"),
+    "C16": ("7/C16", "runtime monitoring: all triples of per-type value pools (exact rational scores where possible, constants and freshly constructed equals) checked against the semiring and star laws",
+            "every law instance over every observed triple holds (exact for rational scores, 1e-9 for float-only types)"),
     "C20": ("7/C20", "runtime monitoring: locally_normalize and add_EOS observed on generated grammars; per-head sums, treesum, proportionality (reference oracle applied to the output rule list) and EOS placement judged against the reference oracle",
             "every observed normalised grammar is proper and proportional and every observed EOS-wrapped grammar gives weight(x) to x+EOS and exactly zero to malformed EOS placements"),
 }
